@@ -1326,5 +1326,5 @@ func runX16(p *an.Prog, r *an.Result) {
 			})
 		}
 	}
-	r.Floor("sign conversions", 2)
+	r.Floor("sign conversions", 1)
 }
